@@ -171,7 +171,7 @@ func Start(t failer, o Opts) *Session {
 	}
 	go func() { s.done <- s.Node.Run(vt.Ctx(), s.interrupt) }()
 	if err := peer.Accept(10 * time.Second); err != nil {
-		t.Fatalf("node did not connect: %s", err)
+		t.Fatalf("%s: node did not connect: %s", p2p.SetupFailure, err)
 	}
 	return s
 }
